@@ -211,6 +211,39 @@ def _dual_oscillation_signature(t, line):
     return len(hits) >= 2 and len(trims6) >= 2
 
 
+def _trunk_record_dropped_signature(t, line, e):
+    """Another leak shape: a trunk interface whose attach and roll-back delete failed was recorded as Deleting, then a
+    full synchronisation dropped the record entry (it only looks up / deletes Secondary interfaces) without deleting it."""
+    st, described = 0, False
+    for r in t[:line - 1]:
+        ev = r["ev"]
+        if ev == "reconcile_begin":
+            described = False
+        elif ev == "describe":
+            described = True
+        elif ev == "create_end" and r.get("e") == e:
+            if r["type"] != "Trunk":
+                return False
+            st = 1
+        elif st == 1 and ev == "attach" and r["e"] == e:
+            if r["effect"]:
+                return False
+            st = 2
+        elif st == 2 and ev == "delete_end" and r["e"] == e:
+            if r["effect"]:
+                return False
+            st = 3
+        elif st == 3 and ev == "cr":
+            if not any(x["e"] == e and x["st"] == "Deleting" for x in r["enis"]):
+                return False
+            st = 4
+        elif st == 4 and ev in ("detach", "delete_begin") and r["e"] == e:
+            return False
+        elif st == 4 and ev == "cr" and not any(x["e"] == e for x in r["enis"]):
+            return described
+    return False
+
+
 def _lost_rollback_signature(t, line, e):
     """Known finding D20 only: interface e was created, its attach failed, the roll-back delete failed and the status
     update of that very reconcile failed, so the 'Deleting' record never reached the API server."""
@@ -267,7 +300,11 @@ def classify(prop, t, line):
             return "c08_no_fixed_point"
         leaked = [c["e"] for c in bad.get("cloud", []) if not c["att"]]
         if leaked:
-            return "c08_leak_after_failed_rollback_and_lost_record" if all(_lost_rollback_signature(t, line, e) for e in leaked) else "c08_leaked_interface"
+            if all(_lost_rollback_signature(t, line, e) for e in leaked):
+                return "c08_leak_after_failed_rollback_and_lost_record"
+            if all(_trunk_record_dropped_signature(t, line, e) for e in leaked):
+                return "c08_leak_trunk_deleting_record_dropped_by_full_sync"
+            return "c08_leaked_interface"
         return "c08_fixed_point_state"
     if prop == "C08" and ev == "assign_begin":
         # over-quota request: right after a describe, into an interface whose map of that family is empty in the record?
@@ -327,7 +364,7 @@ def run(ctx, prop, relevant):
     scen = tc.simulate(ctx, "Ipam_mc", "Ipam_gen.cfg", num=16 if q else 160, depth=90)
     nscen = prepare_scenarios(scen)
     bins = go_build_tests(ctx, [PKG])
-    env = {"VERIF_SCEN": scen, "VERIF_RANDOM": "40" if q else "640", "VERIF_IPAM_ENV": ENV[prop]}
+    env = {"VERIF_SCEN": scen, "VERIF_RANDOM": "72" if q else "720", "VERIF_IPAM_ENV": ENV[prop]}
     traces = run_harness(ctx, bins[PKG], 16, env)
     rej = tc.validate_many(ctx, "Ipam_trace", trace_cfg(prop), [strip(t) for t in traces], max_reruns=16 if q else 160, chunk=40 if q else 50)
     assumed = set(x for x in os.environ.get("VERIF_IPAM_KNOWN", "").split(",") if x)
